@@ -127,6 +127,9 @@ func (do *ObjectContainer) PutItemAwareByName(name string, itemAware IItemAware)
 
 func (do *ObjectContainer) Clone() map[string]IItem {
 	out := make(map[string]IItem)
+	// the maps are written under mu (PutItemAwareById / PutItemAwareByName)
+	do.mu.RLock()
+	defer do.mu.RUnlock()
 	for name, item := range do.dataObjects {
 		value := item.Get()
 		if value != nil {
@@ -241,6 +244,9 @@ func (p *PropertyContainer) PutItemAwareByName(name string, itemAware IItemAware
 
 func (p *PropertyContainer) Clone() map[string]IItem {
 	out := make(map[string]IItem)
+	// the map is written under mu (PutItemAwareByName)
+	p.mu.RLock()
+	defer p.mu.RUnlock()
 	for name, item := range p.items {
 		value := item.Get()
 		if value != nil {
@@ -449,13 +455,14 @@ func (f *FlowDataLocator) PutIItemAwareLocator(name string, locator IItemAwareLo
 func (f *FlowDataLocator) CloneItems(name string) map[string]IItem {
 	out := make(map[string]IItem)
 
-	f.vmu.RLock()
+	// the locators map is guarded by lmu (PutIItemAwareLocator), not by vmu
+	f.lmu.RLock()
 	locator, ok := f.locators[name]
 	if !ok {
-		f.vmu.RUnlock()
+		f.lmu.RUnlock()
 		return out
 	}
-	f.vmu.RUnlock()
+	f.lmu.RUnlock()
 
 	return locator.Clone()
 }
